@@ -54,6 +54,12 @@ EXTRA_FILES = {
     "C01": ["ndonnx/_core/_utils.py", "ndonnx/_funcs.py", "ndonnx/_data_types/classes.py", "ndonnx/_core/_nullableimpl.py", "ndonnx/_core/_coreimpl.py"],
     "C18": ["ndonnx/_corearray.py", "ndonnx/_utility.py"],
     "C19": ["ndonnx/_build.py"],
+    "C05": ["ndonnx/_opset_extensions.py", "ndonnx/_core/_shapeimpl.py", "ndonnx/_corearray.py"],
+    "C14": ["ndonnx/_propagation.py", "ndonnx/_corearray.py", "ndonnx/_array.py"],
+    "C20": ["ndonnx/_opset_extensions.py", "ndonnx/_core/_shapeimpl.py", "ndonnx/_corearray.py", "ndonnx/_utility.py"],
+    "C02": ["ndonnx/_propagation.py"],
+    "C13": ["ndonnx/_array.py", "ndonnx/_corearray.py", "ndonnx/_utility.py"],
+    "C12": ["ndonnx/_core/_utils.py", "ndonnx/_array.py"],
 }
 
 
